@@ -66,6 +66,9 @@ def run(tier, work):
            "samples": sample, "exhaustive": True,
            "apalache_inductive_invariant": {"spec": "TinyLfuCaps.tla", "obligations": ind,
                                             "meaning": "for every total capacity and every step amount: window capacity >= 1, protected capacity >= 0, sum conserved, also between the two halves of resizeWindow"}}
+    # the intrusive lists the regions are made of (List.tla at pointer grain)
+    import listcheck
+    cov.update(listcheck.stage(work, v, "C07", thorough))
     rc = v.finish()
     if tot["div"]:
         print("note: %d step(s) of the real policy are not a transition of TinyLfu.tla for any admit outcomes (model divergence)" % tot["div"])
